@@ -2110,6 +2110,99 @@ def check_icaseguard(facts):
     return r
 
 
+# ---- EXPANDSRC ------------------------------------------------------------------------------
+
+# accessors through which an element of the expansion's answer is read: the value still comes from the container (argument 0)
+_EXPAND_ACCESSORS = ("std::ops::Index::index", "std::ops::Deref::deref", "std::vec::Vec::<T, A>::as_slice", "std::slice::<impl [T]>::first",
+                     "std::slice::<impl [T]>::get", "std::option::Option::<T>::unwrap", "std::option::Option::<T>::expect",
+                     "std::option::Option::<&T>::copied", "std::option::Option::<&T>::cloned", "std::clone::Clone::clone",
+                     "std::slice::<impl [T]>::iter", "std::iter::Iterator::next", "std::iter::IntoIterator::into_iter",
+                     "std::iter::Iterator::copied", "std::iter::Iterator::cloned")
+
+
+def _expand_trace(b, l, seen):
+    """value sources of local `l`, looking through references, casts and container accessors"""
+    if l in seen:
+        return set()
+    seen.add(l)
+    if l <= b.argc and l != 0:
+        return {("param", b.local_name(l) or "_%d" % l)}
+    out = set()
+    for bi, si, kind, pay in b.defs().get(l, []):
+        if kind == "call":
+            cal = pay.get("callee") or "?"
+            a0 = (pay.get("args") or [{}])[0]
+            if cal in _EXPAND_ACCESSORS and a0.get("k") in ("copy", "move"):
+                out |= _expand_trace(b, b.root_of(a0["pl"]["l"])[0], seen)
+            else:
+                out.add(("call", cal))
+            continue
+        rv = pay["rv"]
+        k = rv["k"]
+        ops = []
+        if k in ("use", "cast"):
+            ops = [rv["op"]]
+        elif k == "un":
+            ops = [rv["a"]]
+        elif k in ("ref", "rawptr", "addr", "discr", "copy_for_deref"):
+            out |= _expand_trace(b, b.root_of(rv["pl"]["l"])[0], seen)
+        else:
+            out.add(("other", k))
+        for o in ops:
+            if o["k"] == "const":
+                out.add(("const",))
+            else:
+                out |= _expand_trace(b, b.root_of(o["pl"]["l"])[0], seen)
+    return out
+
+
+def check_expandsrc(facts):
+    from . import backref
+    r = RuleResult("EXPANDSRC", "the lowering of a code-point sequence (the string alternatives of `\\q{..}` and string properties) is case-aware "
+                                "in every build: outside the parser, a function that consults unicode::expand_code_point builds its "
+                                "single-character node (`ir::Node::Char` / `literal::Piece` character variants) only from that call's answer, "
+                                "never from the raw code point it was handed. The utf16 build has its own copy of the emitter's routine "
+                                "(#[cfg(feature = \"utf16\")]) that XCONFIG cannot compare with the default one; a shortcut there that emits "
+                                "the raw code point (for instance for supplementary-plane characters, which do have case pairs: Deseret, "
+                                "Osage, Adlam) makes `/[\\q{\\u{10400}}]/vi` match in one build and not in the other")
+    n = 0
+    nfn = 0
+    for fn in sorted(facts.body_names()):
+        if fn.startswith("parse::") or fn.startswith("unicode::") or "::tests::" in fn or "{closure" in fn:
+            continue
+        b = facts.body(fn)
+        if not any((t.get("callee") or "").endswith("unicode::expand_code_point") for _, t in b.iter_calls()):
+            continue
+        nfn += 1
+        k = 0
+        for bi, i, st in b.iter_stmts():
+            if st["k"] != "assign" or st["rv"]["k"] != "agg":
+                continue
+            a = st["rv"]
+            if a.get("adt") not in ("ir::Node", "literal::Piece") or str(a.get("variant")) != "Char":
+                continue
+            k += 1
+            n += 1
+            key = "%s %s::Char #%d comes from the expansion" % (fn, a["adt"].split("::")[-1], k)
+            op = (a.get("ops") or [{}])[0]
+            if op.get("k") not in ("copy", "move"):
+                r.fail(key, "a Char node with a constant payload is built (line %s) in a routine that lowers arbitrary code points" % st["line"],
+                       facts.loc(fn, st["line"]))
+                continue
+            srcs = _expand_trace(b, op["pl"]["l"], set())
+            bad = sorted("/".join(map(str, x)) for x in srcs if x != ("call", "unicode::expand_code_point"))
+            if bad or not srcs:
+                r.fail(key, "the character of this node (line %s) does not come from unicode::expand_code_point's answer but from %s: the "
+                            "case expansion is bypassed on this path, so under `i` the builds (or the two lowerings) disagree" % (
+                                st["line"], bad or "nothing traceable"), facts.loc(fn, st["line"]))
+            else:
+                r.ok(key, "payload from unicode::expand_code_point")
+                r.sample({"function": fn, "line": st["line"]})
+    r.floor("lowering_routines_consulting_expand_code_point", nfn, 1)
+    r.floor("char_nodes_in_lowering_routines", n, 1)
+    return r
+
+
 # ---- PARSEONLY ------------------------------------------------------------------------------
 
 def check_parseonly(facts):
